@@ -988,7 +988,7 @@ main(int argc, char **argv)
   }
   if(esl_opt_IsOn(go, "--mask-diff")) { 
     if((status = read_mask_file(esl_opt_GetString(go, "--mask-diff"), errbuf, &mask2, &mask2len, &mask2_has_internal_zeroes)) != eslOK) esl_fatal(errbuf);
-    if(masklen != mask2len) esl_fatal("Mask in %f length (%d) differs from mask in %f (%d)!", esl_opt_GetString(go, "--mask"), masklen, esl_opt_GetString(go, "--mask-diff"), mask2len);
+    if(masklen != mask2len) esl_fatal("Mask in %s length (%d) differs from mask in %s (%d)!", esl_opt_GetString(go, "--mask"), masklen, esl_opt_GetString(go, "--mask-diff"), mask2len);
   }
 
   /* Open output files, if necessary */
@@ -1005,7 +1005,7 @@ main(int argc, char **argv)
       if      (status == eslEFORMAT) esl_fatal("Alignment file parse error:\n%s\n", afp2->errbuf);
       else if (status == eslEINVAL)  esl_fatal("Alignment file parse error:\n%s\n", afp2->errbuf);
       else if (status == eslEOF)     esl_fatal("No alignments found in file %s\n", alifile);
-      else if (status != eslOK)      esl_fatal("Alignment file read failed with error code %d\n%s", status, afp2);
+      else if (status != eslOK)      esl_fatal("Alignment file read failed with error code %d\n%s", status, afp2->errbuf);
 
       msa->alen = msa_alen; 
     }
@@ -6416,7 +6416,7 @@ get_insert_info_from_msa(const ESL_ALPHABET *abc, ESL_MSA *msa, int rflen, int *
   for(apos = 0; apos < msa->alen; apos++) { 
     if(esl_abc_CIsResidue(abc, msa->rf[apos])) {
       rfpos++;
-      if(rfpos > rflen) esl_fatal("Error in get_insert_info_from_msa(), expected consensus length (%d) is incorrect."); 
+      if(rfpos > rflen) esl_fatal("Error in get_insert_info_from_msa(), expected consensus length (%d) is incorrect.", rflen); 
     }
     else { 
       for(i = 0; i < msa->nseq; i++) { 
@@ -6710,7 +6710,7 @@ get_insert_info_from_ifile(char *ifile, int rflen, int msa_nseq, ESL_KEYHASH *us
   esl_fileparser_Close(efp);
 
   /* end of file, make sure we read a '//' at the end of it */
-  if(! seen_end_of_model_line) esl_fatal("Error reading insert file, didn't read the special '//' line at the end of file %s.\n", rfpos, efp->linenumber, ifile);
+  if(! seen_end_of_model_line) esl_fatal("Error reading insert file, didn't read the special '//' line at the end of file %s.\n", ifile);
 
   /* if useme_keyhash != NULL, make sure we read all the seqs we wanted to */
   if((useme_keyhash != NULL) && (nseq_stored != nseq2store)) { 
@@ -6785,7 +6785,7 @@ get_insert_info_from_abc_ct(double **abc_ct, ESL_ALPHABET *abc, char *msa_rf, in
       nseq_with_ins_ct[rfpos] = nmaxins;
       nmaxins = 0;
       rfpos++;
-      if(rfpos > rflen) esl_fatal("Error in get_insert_info_from_abc_ct(), expected consensus length (%d) is incorrect."); 
+      if(rfpos > rflen) esl_fatal("Error in get_insert_info_from_abc_ct(), expected consensus length (%d) is incorrect.", rflen); 
     }
     else { 
       nins = (int) esl_vec_DSum(abc_ct[apos], abc->K); 
@@ -7048,7 +7048,7 @@ drawfile2sspostscript(const ESL_GETOPTS *go, char *errbuf, SSPostscript_t *ps, f
 	/* now parse the line, it should have a single number, a numerical value for a position */
 	if (esl_fileparser_GetTokenOnLine(efp, &s, NULL) != eslOK) esl_fatal("Failed to read value for position %d for page %d on line %d of dfile\n", rfpos, (pp - orig_npage + 1), efp->linenumber);
 	value = atof(s);
-	if(value < limits[0] || value > limits[hc_nbins]) esl_fatal("--dfile value %.4f out of allowed range [%.3f-%.3f] on line %d\n", value, limits[0], limits[hc_nbins], efp->linenumber, dfile);
+	if(value < limits[0] || value > limits[hc_nbins]) esl_fatal("--dfile value %.4f out of allowed range [%.3f-%.3f] on line %d of %s\n", value, limits[0], limits[hc_nbins], efp->linenumber, dfile);
 	within_mask = (ps->mask != NULL && ps->mask[rfpos-1] == '1') ? TRUE : FALSE;
 	if((status = set_scheme_values(errbuf, ps->bcolAAA[pp][rfpos-1], NCMYK, hc_scheme[hc_scheme_idx], value, ps->sclAA[pp], within_mask, &bi)) != eslOK) return status;
       }
